@@ -6,6 +6,7 @@
    abstract map, after every operation of every history (Live0 is preserved: C01). *)
 From Cas Require Import History.
 From CasProofs Require Import BaseProofs SMapProofs IndexProofs StoreFS StoreInv StoreWrite StoreRead StoreHist.
+From CasProofs Require DiskInv CrashInv CrashOpen.
 
 Theorem C12_apply_preserves_exactness :
   forall cmp : bytes -> bytes -> comparison,
@@ -81,3 +82,21 @@ Proof. exact get_size_spec. Qed.
 Print Assumptions C12_store_sizes.
 
 Example C12_nonvacuous := IndexProofs.C12_example.
+
+(* after every crash recovery: keys, counts and statistics are exactly those of the recovered map *)
+Theorem C12_exact_after_crash_recovery :
+  forall H : bytes -> bytes,
+    (forall b, length (H b) = 32%nat) -> (forall b, Forall (fun x => x < 256) (H b)) ->
+  forall cfg : config, 0 < c_n cfg ->
+  forall (s : fs) (sg : smap bytes) (w : world),
+    CrashInv.Rest H cfg s sg -> wfault w = None -> wfs w = s ->
+    exists m' os w',
+      open_with_recover H cfg w = (Ok (m', os), w')
+      /\ km (idx m') = km_of H sg
+      /\ (forall h, rc_get (rc (idx m')) h
+                    = if count_refs (km_of H sg) h =? 0 then None else Some (count_refs (km_of H sg) h))
+      /\ ub (idx m') = N.of_nat (length (uniq_sizes (km_of H sg) []))
+      /\ tb (idx m') = usum (uniq_sizes (km_of H sg) [])
+      /\ ssz (idx m') = match DiskInv.fdat (wfs w') PIndex with Some d => len d | None => 0 end.
+Proof. exact CrashOpen.C12_after_crash. Qed.
+Print Assumptions C12_exact_after_crash_recovery.
